@@ -12,7 +12,7 @@ import time
 from .. import common
 
 PROP = "C08"
-MODULES = ["XpmVerif.Properties.C08Files"]
+MODULES = ["XpmVerif.Properties.C08Files", "XpmVerif.Properties.C08Release", "XpmVerif.Properties.TokSrc"]
 DRIVER = "FileTokens"
 RULE = ("file-token engine: 1-3 real CounterToken instances + schedulers on one directory, totals 1-4, requests 1-total, "
         "<= 6 jobs (job dependencies, a private process-level token to force aborted starts, failing jobs), random schedules with "
@@ -172,9 +172,50 @@ def compare(oplog, outs):
 
 # ------------------------------------------------------------------------------------------------ the check
 def probe_flags(ctx, pool):
-    flags = pool.apply(_probe)
-    ctx.notes.append(f"file-token model parameters read off the real code: {flags}")
+    """the two model parameters: read off the AST of tokens.py (translate/tokflags.py; the same reading generates
+    Generated/TokFlags.lean, whose value the source obligation TokSrc.token_flags pins); the behavioural probe is the
+    fallback for a decision point whose source shape is not recognised, and is compared with the AST reading otherwise"""
+    from ..translate import tokflags
+    probed = pool.apply(_probe)
+    try:
+        ast_flags, unknown = tokflags.extract((common.REPO / "src/experimaestro/tokens.py").read_text())
+    except Exception as e:
+        ast_flags, unknown = {}, {k: f"unreadable: {e}" for k in ("tolerant", "notifyMissing")}
+    flags = {}
+    for k in ("tolerant", "notifyMissing"):
+        if k in ast_flags and k not in unknown:
+            flags[k] = ast_flags[k]
+            ctx.count("ft_model_parameter_source", f"{k}:ast")
+            if ast_flags[k] != probed[k]:
+                ctx.disagree({"translator": "tokflags", "flag": k}, {"ast": ast_flags[k]}, {"probe": probed[k]},
+                             f"file-token decision point {k}: the source reads {ast_flags[k]} but the real code behaves as {probed[k]}")
+        else:
+            flags[k] = probed[k]
+            ctx.count("ft_model_parameter_source", f"{k}:probe")
+    ctx.notes.append(f"file-token model parameters: {flags} (AST reading {ast_flags}, not recognised: {sorted(unknown)}; behavioural probe {probed})")
     return flags
+
+
+_PROBE_CACHE = {}
+
+
+def probe_one(flag):
+    """probe for translate/tokflags.generate: behaviour of the real code at one decision point (None = no probe for it)"""
+    if flag not in ("tolerant", "notifyMissing"):
+        return None
+    if not _PROBE_CACHE:
+        with mp.Pool(1) as pool:
+            _PROBE_CACHE.update(pool.apply(_probe))
+    return _PROBE_CACHE[flag]
+
+
+def translate(ctx):
+    """regenerate Generated/TokFlags.lean from the tree under test; returns the (ok, msg) for check_proofs"""
+    from ..translate import tokflags
+    ok, msg, flags, unknown = tokflags.generate(common.REPO, common.LEAN, probe=probe_one)
+    ctx.notes.append(f"translator(tokflags): {msg}")
+    ctx.extra_cov["tokflags_translator"] = {"flags": flags, "untranslated": unknown}
+    return ok, "tokflags: " + msg
 
 
 def run(ctx, prop, n_quick, n_thorough):
@@ -206,7 +247,7 @@ def run(ctx, prop, n_quick, n_thorough):
         nf = sum(1 for js in spec["jobs"] if any(d[0] == "f" for d in js["deps"]))
         failed_acq = sum(1 for op, out, _ in oplog if op[0] == "acquireBegin" and not out["ok"])
         reqs = {js["ident"]: _req(spec, js["ident"]) for js in spec["jobs"]}
-        stale = sum(1 for op, out, o in oplog if op[0] in ("acquireBegin", "release")
+        stale = sum(1 for op, out, o in oplog if op[0] in ("acquireBegin", "release", "relEnd")
                     and any(not P["dropped"] and P["avail"] != spec["total"] - sum(reqs[f] for f, _ in o["disk"]) for P in o["procs"]))
         nontrivial = spec["nsched"] >= 2 and nf >= 2 and (failed_acq > 0 or stale > 0)
         case = {"seed": seed, "spec": spec, "faults": sorted(faults), "events": r["events"][:80]}
@@ -216,9 +257,11 @@ def run(ctx, prop, n_quick, n_thorough):
         ctx.count("ft_jobs", len(spec["jobs"]))
         ctx.count("ft_fault_class", "+".join(sorted(faults)) or "none")
         ctx.count("ft_quiescent", r["quiescent"])
+        if r.get("race_injected"):
+            ctx.count("ft_release_unlink_raced_by_foreign_watcher", r["race_injected"])
         prev = None
         for op, out, o in oplog:
-            if op[0] == "release" and out["ok"]:
+            if op[0] in ("release", "relBegin") and out["ok"]:
                 ctx.count("ft_release_kind", "aborted start (job lock still held)" if prev is not None and op[2] in prev["active"] else "after the job ended")
             prev = o
         for op, out, _ in oplog:
